@@ -678,9 +678,6 @@ class Env(gpp.UGenParameter, gpp.NodeParameter):
                 return 0
 
     def _envgen_format(self):  # Was asMultichannelArray.
-        if self.__envgen_format:  # this.array
-            return self.__envgen_format
-
         # prAsArray
         levels = gpp.ugen_param(self.levels)._as_ugen_input()
         times = gpp.ugen_param(self.times)._as_ugen_input()
@@ -710,9 +707,6 @@ class Env(gpp.UGenParameter, gpp.NodeParameter):
 
     def _interpolation_format(self):  # Was asArrayForInterpolation.
         '''This version is for IEnvGen which has a special format.'''
-        if self.__interpolation_format:
-            return self.__interpolation_format
-
         levels = gpp.ugen_param(self.levels)._as_ugen_input()
         times = gpp.ugen_param(self.times)._as_ugen_input()
         curves = gpp.ugen_param(utl.as_list(self.curves))._as_ugen_input()
